@@ -13,6 +13,11 @@ CHECKS = {
     text="Exploration: random programs of the core command language incl. command-search probes; exact (probe id, $?) sequence of the main process, multiset of child-process sequences and final status must equal the reference interpreter's, under the canonical and a varied surface rendering. Bounded random search with shrinking.",
     note="Trusted: the reference interpreter harness/src/model/interp.rs and its renderer. Only uses of break/continue/return that POSIX defines are generated.",
     design="4/C02"),
+ "C08": dict(
+    technique="property-based testing: exhaustive (subshell kind x mutator) grid + proptest mutator sequences under FIFO and seeded schedules; invariant oracle on full parent snapshots before/after and on the child's view at entry",
+    text="Exploration: 10 subshell kinds x 67 state mutators x 3 schedules exhaustively, plus random sequences of 1-5 mutators under random schedules with preemption; the parent's complete observable state (variables+attributes, functions, aliases, options, positional parameters, traps, cwd, umask, descriptor table by open-file-description identity, signal dispositions) must be identical before and after; the child's view at entry must equal it except for reset command traps. Bounded.",
+    note="Trusted: the snapshot probe (probes.rs) and process inspection (vsys.rs). `$?`, `$!`, the job list and the variable assigned from $( ) are excluded by construction; SIGCHLD handling installed by the shell itself is ignored.",
+    design="4/C08"),
  "C10": dict(
     technique="property-based testing: proptest programs with planted failures of every shell-error category and errexit toggles, run on the virtual shell vs a reference interpreter with the errexit rule and the shell-error table; EXIT-trap probe counted",
     text="Exploration: the C02 generator plus failing commands of each documented category, errexit on/off/toggled, EXIT trap; trace up to the abort point, nothing after it, status (exact where documented, else non-zero), EXIT probe exactly once and last. Bounded random search with shrinking.",
